@@ -61,6 +61,8 @@ class InitMethod(MethodDescriptor):
                             continue
                         if not instance_attr_spec.init:
                             continue  # Not accepted by the parent constructor.
+                        if attr == instance_metadata.init_overflow_attr:
+                            continue  # Collected below (once) for this instance.
                         if attr in kwargs:
                             # The parent constructor does not copy values for
                             # attributes of subclass instances, so we do so here.
